@@ -44,6 +44,77 @@ pub fn hostile_world(mut t: Tape, scn: &crate::scenarios::Scenario, extreme: boo
     (w, rendered)
 }
 
+/// Hostile scenario from a recorded conversation: a decode-property scenario (reference-model
+/// server with a random state and transport) is run once with the real client, the replies the
+/// server sent are recorded, damaged, and served again to the same call by scripted servers.
+pub fn recorded_hostile(mut t: Tape, extreme: bool) -> Option<(crate::entry::Call, World, Vec<String>)> {
+    use super::{c02, c03, c04, c05, c06, c07};
+    use crate::world::{Hist, Proto};
+    let (call, world) = match t.draw(CFG, 8) {
+        0 | 1 => {
+            let scn = c02::scenario(&mut t, 40);
+            let srv = scn.server();
+            let addr = scn.addr();
+            let mut w = World::new(t);
+            w.add_server(addr, Proto::Udp, Box::new(srv));
+            (scn.call, w)
+        }
+        2 => {
+            let b = c04::build(t);
+            (b.call, b.world)
+        }
+        3 => {
+            let b = c05::build(t);
+            (b.call, b.world)
+        }
+        4 => {
+            let b = c06::build(t, None);
+            (b.call, b.world)
+        }
+        5 => {
+            let subset = 1 + t.draw(CFG, 31) as u32;
+            let sel = t.draw(CFG, 12);
+            let m = c03::build(t, subset, sel);
+            (m.built.call, m.built.world)
+        }
+        _ => {
+            let g = t.draw(CFG, 6); // not Eco: its body does not travel through the socket seam
+            let b = c07::build(t, g);
+            (b.call, b.world)
+        }
+    };
+    let slots: Vec<(std::net::SocketAddr, Proto)> = world.servers.iter().map(|s| (s.addr, s.proto)).collect();
+    let mut rec = run_call(world, &call);
+    let mut t = std::mem::replace(&mut rec.world.tape, Tape::replay(Default::default()));
+    let mut per_server: Vec<Vec<Vec<u8>>> = vec![Vec::new(); slots.len()];
+    for h in &rec.world.hist {
+        if let Hist::ServerTx { server, data, .. } = h {
+            per_server[*server].push(data.clone());
+        }
+    }
+    if per_server.iter().all(Vec::is_empty) {
+        return None;
+    }
+    let mut rendered = Vec::new();
+    let mut w = World::new(Tape::replay(Default::default()));
+    let mut servers = Vec::new();
+    for (i, (addr, proto)) in slots.iter().enumerate() {
+        let script = hostile::damage_recorded(&mut t, std::mem::take(&mut per_server[i]), extreme);
+        for (k, d) in script.iter().enumerate().take(6) {
+            let hex: String = d.iter().take(40).map(|b| format!("{b:02x}")).collect();
+            rendered.push(format!("recorded {proto:?}@{addr} reply[{k}] len={} {hex}", d.len()));
+        }
+        servers.push((*addr, *proto, HostileServer::new(&mut t, script)));
+    }
+    let seg = if t.draw(CFG, 2) == 0 { 500_000 } else { 0 };
+    w.tape = t;
+    w.net.tcp_segment_ppm = seg;
+    for (addr, proto, srv) in servers {
+        w.add_server(addr, proto, Box::new(srv));
+    }
+    Some((call, w, rendered))
+}
+
 impl Prop for C01 {
     fn id(&self) -> &'static str { "C01" }
 
@@ -56,15 +127,31 @@ impl Prop for C01 {
         }
     }
 
-    fn run_case(&self, _idx: u64, mut t: Tape, detail: bool) -> (CaseOut, Tape) {
+    fn run_case(&self, idx: u64, mut t: Tape, detail: bool) -> (CaseOut, Tape) {
         let mut out = CaseOut::default();
-        let scn = gen_scenario(&mut t, SERVER_IP, 2);
-        let (mut w, script) = hostile_world(t, &scn, false, true);
+        // every third case replays a damaged *recorded* conversation of a reference-model server
+        let (call, mut w, script) = if idx % 3 == 2 {
+            match recorded_hostile(t, false) {
+                Some(x) => {
+                    out.probe("recorded_conversation_replayed");
+                    x
+                }
+                None => {
+                    out.skipped = Some("recorded conversation had no replies");
+                    return (out, Tape::replay(Default::default()));
+                }
+            }
+        } else {
+            let scn = gen_scenario(&mut t, SERVER_IP, 2);
+            let (w, script) = hostile_world(t, &scn, false, true);
+            (scn.call, w, script)
+        };
+        let scn_call = call;
         // budget: generous multiple of what any exchange needs; a client that keeps
         // issuing socket operations after the server went silent runs into it
-        let r = crate::gen::retries_of(&scn.call.timeout) as u64;
+        let r = crate::gen::retries_of(&scn_call.timeout) as u64;
         w.op_budget = 2_000 + 500 * (r + 1);
-        let mut run = run_call(w, &scn.call);
+        let mut run = run_call(w, &scn_call);
         if let Some(c) = &run.crash {
             out.violate(crash_violation("", c));
         } else if run.result.is_none() {
@@ -79,7 +166,7 @@ impl Prop for C01 {
         out.distinct_key = out.log_hash;
         if detail {
             out.sample = Some(json!({
-                "call": describe_call(&scn.call),
+                "call": describe_call(&scn_call),
                 "script": script,
                 "result": describe_result(&run.result, &run.crash),
             }));
@@ -90,7 +177,7 @@ impl Prop for C01 {
     }
 
     fn rule(&self) -> String {
-        "each case draws one public entry point with settings (every protocol query, every hand-written game module, a macro-generated game module, the master-server service, or the definition-driven dispatch over a random GAMES entry; gather toggles, engine variants, retries 0-2, finite timeouts) and a hostile reply script of 0-12 items of up to 64 KiB: a valid reply sequence damaged by truncation / boundary values in length, count, index fields / deleted terminators / bit flips / huge decimal numbers / padding / dropped, duplicated or swapped replies, or a valid header plus random bytes, or random bytes; followed by silence (UDP) or FIN / stall / RST (TCP). Some runs also inject arbitrary io::Errors, short TCP writes and TCP segmentation. Non-trivial = the client received at least one reply; distinct = distinct event-log hash".to_string()
+        "each case draws one public entry point with settings (every protocol query, every hand-written game module, a macro-generated game module, the master-server service, or the definition-driven dispatch over a random GAMES entry; gather toggles, engine variants, retries 0-2, finite timeouts) and a hostile reply script of 0-12 items of up to 64 KiB: a valid reply sequence damaged by truncation / boundary values in length, count, index fields / deleted terminators / bit flips / huge decimal numbers / padding / dropped, duplicated or swapped replies, or a valid header plus random bytes, or random bytes; every third case instead records the replies a reference-model server (random state, random transport: split, compressed, multi-packet) really sent in a valid conversation of the same call and serves them again damaged the same way; followed by silence (UDP) or FIN / stall / RST (TCP). Some runs also inject arbitrary io::Errors, short TCP writes and TCP segmentation. Non-trivial = the client received at least one reply; distinct = distinct event-log hash".to_string()
     }
 
     fn assumptions(&self) -> Vec<String> {
@@ -101,7 +188,7 @@ impl Prop for C01 {
         ]
     }
 
-    fn required_probes(&self) -> Vec<&'static str> { vec!["query_returned_ok", "query_returned_err", "datagram_truncated_to_buffer", "io_error", "tcp_segmented"] }
+    fn required_probes(&self) -> Vec<&'static str> { vec!["query_returned_ok", "query_returned_err", "datagram_truncated_to_buffer", "io_error", "tcp_segmented", "recorded_conversation_replayed"] }
 
     fn components(&self) -> Value { standard_components() }
 }
